@@ -786,6 +786,20 @@ def gen_wire():
     for ix, (tmpl, args) in enumerate(seen):
         out.append(f"  -- {tmpl!r} <- {', '.join(args)}")
         out.append(f"  ({bytes_lit(tmpl)}, [" + ", ".join(bytes_lit(a) for a in args) + "])" + ("," if ix + 1 < len(seen) else ""))
+    out += ["]", ""]
+    # the lines of a resynchronisation burst: per function, every format! of a plain positional text, in source order
+    out += ["/-- the resynchronisation burst: (function, format text, arguments in order) -/",
+            "def syncFormats : List (List Nat × List Nat × List (List Nat)) := ["]
+    rows = []
+    for fname, hdr in [("make_create_db_command", r"fn make_create_db_command\s*\("), ("get_full_sync_opps", r"fn get_full_sync_opps\s*\("),
+                       ("get_pendding_opps_since_from_sync", r"fn get_pendding_opps_since_from_sync\s*\(")]:
+        raw, b = fn_body("replication_ops.rs", hdr, f"resynchronisation formatter {fname}")
+        fs = formats_in(raw, b)
+        if not fs: raise ExtractError(f"resynchronisation formatter {fname}: no line format found")
+        rows += [(fname, t, a) for t, a in fs]
+    for ix, (fname, tmpl, args) in enumerate(rows):
+        out.append(f"  -- {fname}: {tmpl!r} <- {', '.join(args)}")
+        out.append(f"  ({bytes_lit(fname)}, {bytes_lit(tmpl)}, [" + ", ".join(bytes_lit(a) for a in args) + "])" + ("," if ix + 1 < len(rows) else ""))
     out += ["]", "", "end Nun.Gen", ""]
     return "\n".join(out)
 
